@@ -18,6 +18,18 @@ def obligations(tier):
                       bounds=f"K={k}; monotone-UF clock"))
         obs.append(Ob(f"C11.dataflow.K{k}", "CH", "harness.h_sync", "timestamp_at_tick_dataflow", 120, env,
                       funcs=(SYNC + "timestamp_at_tick",), bounds=f"K={k}; recorder clock"))
+    for kb in ([18] if tier == "quick" else [18, 26, 34]):
+        obs.append(Ob(f"C11.long_map.index.K{kb}", "CH", "harness.h_big", "index_big", 2400, {"VF_KB": kb},
+                      funcs=(SYNC + "_index_of_proximal_event",), bounds=f"{kb} tempo events with symbolic ticks, every hint 0..{kb}"))
+    for kind in ([2, 3] if tier == "quick" else [0, 1, 2, 3, 4, 5]):
+        for m in ([2] if tier == "quick" else [2, 3]):
+            obs.append(Ob(f"C11.chain_any_order.kind{kind}.M{m}", "CH", "harness.h_events", "chain_any_order", 900, {"VF_KIND": kind, "VF_M": m},
+                          funcs=("chartparse.track.build_events_from_data", SYNC + "timestamp_at_tick"),
+                          bounds=f"{m} events of one kind in ARBITRARY tick order over 3 real tempo events: ValueError or every stored time/index equals the un-hinted query"))
+    obs.append(Ob("C11.note_chain", "CH", "harness.h_integrated", "note_section_any_order", 1200, {"VF_IDX": "0,1"},
+                  funcs=("chartparse.instrument.InstrumentTrack.from_chart_lines",), bounds="2 note lines in arbitrary tick order: ValueError or correct times"))
+    obs.append(Ob("C11.constructor_hints", "CH", "harness.h_events", "constructor_dataflow", 300, {"VF_KIND": 2}, funcs=("chartparse.instrument.TrackEvent.from_parsed_data",)))
+    obs.append(Ob("C11.note_event_dataflow", "CH", "harness.h_instrument", "note_event_dataflow", 600, funcs=("chartparse.instrument.NoteEvent.from_parsed_data",)))
     return obs
 
 LEVEL_TEXT = ("Bounded symbolic execution (CrossHair/z3) of the real lookup and constructor code: for every "
